@@ -3,7 +3,7 @@ CONSTANTS
   MaxOps = 3
   OpKinds = {"tip", "add", "int", "tick"}
   TickAmounts = {1, 1201}
-  Timeouts = {0, 2, 1000000}
+  Timeouts = {2, 1000000}
   Thresholds = {1000, 999999999}
   Ages = {0}
   PrevFeeSet <- PFSmall
